@@ -140,6 +140,97 @@ theorem numeric_param_is_own_word (d : Decoder) (hd : d ∈ decoders) (hsys : sy
   simp only [numericOf, Bool.or_eq_true, decide_eq_true_eq] at hn
   rcases hn with ((hn | hn) | hn) | hn <;> rw [hn] at hin <;> simp [within, paramSel] at hin <;> omega
 
+/-! ### A bare number is the WHOLE word
+
+  The footprint facts above say *which* word a parameter reads; they would still hold if a decoder showed a
+  narrowed reading of that word (its low 32 bits, say) — a number that is not the argument any more once the
+  argument needs more than 32 bits.  The next fact closes that: every parameter of a syscall / trap decoder
+  that renders a bare number (decimal or hexadecimal text of pure integer arithmetic on window words) is
+  syntactically one of the three whole-word forms of its own START word, with one listed exception. -/
+
+/-- Pure integer arithmetic on window words and literals (no enum, flag, table or string read). -/
+def arith : Expr → Bool
+  | .startArg _ | .endArg _ | .int _ => true
+  | .cInt64 e | .cInt32 e => arith e
+  | .band a b | .bor a b | .shr a b | .shl a b => arith a && arith b
+  | _ => false
+
+/-- A parameter that renders a bare number. -/
+def bareNumber : Expr → Bool
+  | .strOf e | .hexOf e => arith e
+  | _ => false
+
+/-- Decimal, hexadecimal or signed (two's complement, 64 bits) text of the whole START word `k`. -/
+def wholeWord (k : Nat) (p : Expr) : Bool :=
+  p = .strOf (.startArg k) || p = .hexOf (.startArg k) || p = .strOf (.cInt64 (.startArg k))
+
+/-- The one parameter that is deliberately narrowed: `semaphore_timedwait`'s nanoseconds (position 1) are an
+    `unsigned int` in the trap's prototype and are shown as `args[1] & 0xffffffff`. -/
+def narrowed : List (Nat × Nat) :=
+  [ (35103245609197095007308586982694452387520952448627944768054213370224, 1) ]   -- MSC_semaphore_timedwait_trap
+
+def numbersWhole (fs : List Expr) (key : Nat) : Nat → List (Option Expr × Expr) → Bool
+  | _, [] => true
+  | k, (_, p) :: rest =>
+    (!bareNumber (subst fs p) || wholeWord k (subst fs p) || narrowed.contains (key, k))
+      && numbersWhole fs key (k + 1) rest
+
+def numbersWholeDec (d : Decoder) : Bool :=
+  match d.shape with
+  | some s => !syscallLike d || numbersWhole d.fields d.key 0 s.params
+  | none => true
+
+theorem all_numbers_whole : decoders.all numbersWholeDec = true := by decide +kernel
+
+theorem numbersWhole_get (fs : List Expr) (key : Nat) (k0 : Nat) (ps : List (Option Expr × Expr))
+    (h : numbersWhole fs key k0 ps = true) (i : Nat) (c : Option Expr) (p : Expr) (hi : ps[i]? = some (c, p)) :
+    (!bareNumber (subst fs p) || wholeWord (k0 + i) (subst fs p) || narrowed.contains (key, k0 + i)) = true := by
+  induction ps generalizing k0 i with
+  | nil => simp at hi
+  | cons q ps ih =>
+    obtain ⟨qc, qp⟩ := q
+    simp only [numbersWhole, Bool.and_eq_true] at h
+    cases i with
+    | zero =>
+      simp only [List.getElem?_cons_zero, Option.some.injEq, Prod.mk.injEq] at hi
+      obtain ⟨_, rfl⟩ := hi
+      simpa using h.1
+    | succ i =>
+      have := ih (k0 + 1) h.2 i (by simpa using hi)
+      rwa [show k0 + 1 + i = k0 + (i + 1) by omega] at this
+
+/-- **A number shown at position `k` is the k-th START argument itself** — in decimal, in hexadecimal or as
+    the signed 64-bit reading — for every syscall / trap decoder, every window and every word (also the ones
+    beyond 32 bits), outside the one listed narrowed parameter. -/
+theorem bare_number_is_whole_word (d : Decoder) (hd : d ∈ decoders) (hsys : syscallLike d = true)
+    (s : Shape) (hs : d.shape = some s) (k : Nat) (c : Option Expr) (p : Expr) (hp : s.params[k]? = some (c, p))
+    (hb : bareNumber (subst d.fields p) = true) (hn : narrowed.contains (d.key, k) = false)
+    (cx : Ctx) (a : Nat) (ha : cx.win.startArgs[k]? = some a) :
+    evalS cx (subst d.fields p) = .ok (toString a) ∨ evalS cx (subst d.fields p) = .ok (pyHex a)
+      ∨ evalS cx (subst d.fields p) = .ok (pyStr (.int (wrap64 a))) := by
+  have hall := List.all_eq_true.mp all_numbers_whole d hd
+  simp only [numbersWholeDec, hs, hsys, Bool.not_true, Bool.false_or] at hall
+  have hk := numbersWhole_get d.fields d.key 0 s.params hall k c p hp
+  rw [Nat.zero_add] at hk
+  simp only [hb, hn, Bool.not_true, Bool.false_or, Bool.or_false] at hk
+  simp only [wholeWord, Bool.or_eq_true, decide_eq_true_eq] at hk
+  rcases hk with (hk | hk) | hk <;> rw [hk]
+  · exact Or.inl (decimal_form cx k a ha)
+  · exact Or.inr (Or.inl (hex_form cx k a ha))
+  · exact Or.inr (Or.inr (signed64_form cx k a ha))
+
+/-- Not vacuous: `BSC_pread`'s four parameters are bare numbers outside `narrowed`; `pwritev`'s offset
+    (position 3) is the signed whole-word form. -/
+example : ∃ d ∈ decoders, d.key = 5945851335799623475556 ∧
+    (d.shape.map fun s => s.params.map fun cp => bareNumber (subst d.fields cp.2)) = some [true, true, true, true] := by
+  decide +kernel
+
+/-- `pwritev`'s file offset (position 3) is the signed whole-word form. -/
+example : ∃ d ∈ decoders, d.key = 1673608366272881977623213759198946678 ∧
+    (d.shape.map fun s => s.params.map fun cp => subst d.fields cp.2)
+      = some [.strOf (.startArg 0), .hexOf (.startArg 1), .strOf (.startArg 2), .strOf (.cInt64 (.startArg 3))] := by
+  decide +kernel
+
 /-! ### Which START record: the window the pipeline hands to a decoder
 
   C04 proves that the event list delivered when an END arrives is `s :: body ++ [e]` where `s` is the most
